@@ -360,6 +360,8 @@ RULES = [
     ("C03-R1", "`notlike` vs `not like`, `!=` vs `not =`: the negation table pairs each operator with its documented negative [shared with C03]", lambda ctx: __import__("c03").r1(ctx)),
     ("X-LEXCLASS", "lexer operator / arithmetic character classes and context flags [shared]", lambda ctx: __import__("extra").lexer_classes(ctx)),
     ("X-ROOTS", "root option defaults, Root::new and the per-root reset of parse_roots [shared]", lambda ctx: __import__("extra").root_defaults(ctx)),
+    ("X-LEXCHARS", "the lexer reads the query by characters, not bytes [shared]", lambda ctx: __import__("extra2").lexer_reads_characters(ctx)),
+    ("C11-R6", "clause keywords (order, by, asc, desc, ..) are keywords in every position", lambda ctx: __import__("extra2").keyword_arm_guards(ctx)),
 ]
 
 EXPLANATION = (
